@@ -75,11 +75,13 @@ func (db *Database) SearchWithPipelineOptions(query string, options SearchOption
 	queryWords := strings.Fields(strings.ToLower(query))
 	results := make([]SearchResult, 0, utils.Min(len(db.Commands), options.Limit*constants.ResultsBufferMultiplier))
 
+	currentPlatform := getCurrentPlatform()
+
 	for i := range db.Commands {
 		cmd := &db.Commands[i]
 
-		// If PipelineOnly is true, skip non-pipeline commands
-		if options.PipelineOnly && !isPipelineCommand(cmd) {
+		// If PipelineOnly is true, skip non-pipeline commands; skip commands of other platforms
+		if !passesFilters(cmd, options, currentPlatform) {
 			continue
 		}
 
@@ -531,16 +533,25 @@ func (db *Database) limitResults(results []SearchResult, limit int) []SearchResu
 
 // performFuzzySearch conducts fuzzy search on the database
 func (db *Database) performFuzzySearch(query string, options SearchOptions) []SearchResult {
-	// Create search targets combining command and description
-	targets := make([]string, len(db.Commands))
+	// Create search targets combining command and description, for the commands that
+	// pass the platform and pipeline filters (the fallback must not show what the
+	// index search would have filtered out)
+	targets := make([]string, 0, len(db.Commands))
+	targetDoc := make([]int, 0, len(db.Commands))
 	var builder strings.Builder
+	currentPlatform := getCurrentPlatform()
 
-	for i, cmd := range db.Commands {
+	for i := range db.Commands {
+		cmd := &db.Commands[i]
+		if !passesFilters(cmd, options, currentPlatform) {
+			continue
+		}
 		builder.Reset()
 		builder.WriteString(cmd.Command)
 		builder.WriteByte(' ')
 		builder.WriteString(cmd.Description)
-		targets[i] = builder.String()
+		targets = append(targets, builder.String())
+		targetDoc = append(targetDoc, i)
 	}
 
 	// Perform fuzzy search
@@ -570,7 +581,7 @@ func (db *Database) performFuzzySearch(query string, options SearchOptions) []Se
 		}
 
 		results = append(results, SearchResult{
-			Command: &db.Commands[match.Index],
+			Command: &db.Commands[targetDoc[match.Index]],
 			Score:   normalizedScore,
 		})
 	}
